@@ -131,6 +131,10 @@ def convert(
         else:
             to = Path(outname).suffix
 
+    # The target language can be given with or without a leading dot,
+    # but the main functions expect a file suffix
+    to = {"c": ".c", "h": ".h", "py": ".py", "python": ".py"}.get(to, to)
+
     if to in {".c", ".h", "c"}:
         gotran2c.main(
             fname=fname,
